@@ -12,6 +12,7 @@ let () =
     "concat", (fun _ -> Wire.cmd_concat);
     "cursor", Xcursor.cmd_cursor;
     "loop", Xloop.cmd_loop;
+    "compile", Xlang.cmd_compile;
   ]
 
 let () =
